@@ -2,16 +2,70 @@
 """Regenerates /verif/MANIFEST.json from the table below (authoring helper, not used by checks)."""
 import json, subprocess
 
+def E(tech, text, note):
+    return (tech, text, note)
+
 CLAIMED = {
- "C01": ("history/input + executable model: DiffTool verdict vs independent DP membership oracle over generated (expectations, output) pairs",
-         "Exploration: 2e5 (quick) / 1.2e7 (thorough) generated pairs; every reported pass is checked against a dynamic-programming membership test of e1{q1}..en{qn} and the reported assignment is re-validated as a witness. Decides the executions produced, sizes <= 8 expectations x 12 lines (+ long tails).",
-         "Match matrix (Expectation::matches) taken as data; bounded sizes; harness line splitting is its own."),
- "C02": ("structural-invariant monitor over Diff.lines (exactly-once / order / conservation) on generated pairs incl. hostile bytes, in crash-attributing worker processes",
-         "Exploration: each Diff is walked once with counters against the harness's own split of the output; panics/aborts are attributed per case; termination = returned before watchdog.",
-         "Hang = inconclusive, not violation; bounded sizes."),
- "C03": ("differential monitor: DiffTool verdict vs deterministic one-look-ahead run oracle, cross-checked against the DP oracle",
-         "Exploration: only cases the determinism oracle puts in scope are judged; member <=> pass.",
-         "Conservative scope test; match matrix as data."),
+ "C01": E("input + executable model: DiffTool / TestCase::validate verdict vs an independent DP membership oracle over generated (expectations, output) pairs; every reported pass re-validated as a witness assignment",
+          "Exploration: 1e6 (quick) / 4e7 (thorough, incl. the complete sweep of <=3 expectations x <=4 lines) generated pairs. Decides the executions produced; sizes <= 8 expectations x 12 lines (+ long tails up to 2000 lines).",
+          "Match matrix (Expectation::matches) taken as data (C04 judges it); bounded sizes; harness line splitting is its own."),
+ "C02": E("structural-invariant monitor over Diff.lines (exactly-once / order / conservation of bytes) on generated pairs incl. hostile bytes, in crash-attributing worker processes; Miri sidecar (thorough) interprets the same invariant over DiffTool",
+          "Exploration: every Diff is walked once with counters against the harness's own split of the output; panics/aborts attributed per case; termination = returned before the watchdog; thorough adds 16 Miri shards.",
+          "Hang = inconclusive, not violation; bounded sizes."),
+ "C03": E("differential monitor: DiffTool verdict vs a deterministic one-line-look-ahead run oracle, cross-checked against the DP oracle",
+          "Exploration: only cases the determinism oracle puts in scope are judged; member <=> pass; includes the output's own lines as expectations.",
+          "Conservative scope test (any line matched by two candidates => out of scope); match matrix as data."),
+ "C04": E("differential monitor: Expectation::matches for every rule kind vs the harness's own matchers (byte equality, escape decoder, glob DP, backtracking full-match regex evaluator over a generated AST), default and Cram-compat registries",
+          "Exploration: expressions rendered from token lists / ASTs so the documented meaning is known by construction; candidate lines = members, one-edit mutants, anchoring extensions, non-ASCII.",
+          "Expression size <= 12 nodes, lines <= 40 scalars, valid UTF-8 for glob/regex; constructs scrut changes for Cram compatibility are not specified cases."),
+ "C05": E("input + model: TestCase::validate vs (exit-code gate and DP membership on the configured stream); end-to-end: documents whose commands exit N / print payloads / kill their shell, result kinds of `scrut test -r json` vs a sequential model, marker log",
+          "Exploration: 1e5 in-process cases + 400 documents (quick); the 'no exit code => never success' clause is judged end to end only.",
+          "Signals KILL/TERM/SEGV/ABRT; Markdown and Cram; bash of this image."),
+ "C06": E("construction oracle: Markdown documents rendered from a block-list AST, MarkdownParser::parse result vs the expected test list (command, expectations, exit code, config, line number, title); truncation family; panic capture; e2e sidecar counting results of `scrut test -r json`",
+          "Exploration: 2e4 (quick) / 1e6 (thorough) documents.",
+          "Constructs scrut does not document are generated for the no-crash clause only; title rule relaxed where the statement is ambiguous."),
+ "C07": E("construction oracle: Cram documents rendered from an item list, CramParser::parse result vs the expected test list",
+          "Exploration: 2e4 / 1e6 documents, every order of item kinds, whitespace-only expectations, single-space indentation differences.",
+          "Cram-compat expectation maker replicated from the binary."),
+ "C08": E("construction oracle for the line grammar (expression x suffix, near-miss suffixes) + round-trip law parse -> canonical form -> parse compared on probe contents, both escapers",
+          "Exploration: 4e4 / 1.5e6 lines.",
+          "A blank other than U+0020 before the group is generated for the no-crash clause and for the round trip only."),
+ "C09": E("round-trip law: generated outcome (real validate) -> TestCaseGenerator / UpdateGenerator -> parser -> validate against the same output (in-process); end-to-end: scrut create / update / --convert then scrut test on payloads of 18 hostile line classes",
+          "Exploration: 4e4 in-process outcomes + 320 e2e runs (quick).",
+          "output_stream=stderr configurations not generated; CR LF under --convert out of scope (formats differ in keep_crlf)."),
+ "C10": E("conservation + idempotence monitor: document from a block list, generate_update (in-process) and `scrut update --replace --assume-yes` twice (e2e): lines outside scrut blocks identical, block count/language/config/comments/commands kept, passing tests untouched, second update byte-identical, updated document passes",
+          "Exploration: 8e3 in-process + 200 e2e documents (quick).",
+          "Fence length and blank after the language may change; benign output text except fence look-alikes."),
+ "C11": E("law monitor: printable (own Unicode tables for Cc/Cf/Cn from CPython unicodedata 14.0) and lossless (escaped text read back as that kind of expectation matches the line and no mutant); complete sweeps of bytes, byte pairs and Unicode scalars in the thorough tier",
+          "Exploration: 1.4e4 batches quick; thorough sweeps all 256 bytes, 65536 pairs and every scalar.",
+          "Code points assigned after Unicode 7 in category Cf are counted, not judged (table skew)."),
+ "C12": E("history + executable model: random histories of state-changing snippets through StatefulExecutor(BashRunner) vs ONE real bash session fed the same snippets; per-section comparison; 1-minimal op list as signature",
+          "Exploration: 240 histories (quick) / 5000 (thorough), every state class of the statement.",
+          "bash 5.2.15 of this image; TESTDIR-class variables never modified (C12 and C18 contradict there, observation O-1)."),
+ "C13": E("construction oracle: commands cat payload files / print literals, expected bytes computed by the harness (CR LF and CSI transforms its own), both executors, all stream/keep_crlf/strip_ansi settings; direct replace_crlf up to 1e6 pairs; memcheck sidecar (thorough)",
+          "Exploration: 220 sequences (quick) / 16000 (thorough), payloads up to 8 MB on both streams.",
+          "TAB/CR removal by strip-ansi-escapes not asserted; forged divider output is a listed finding."),
+ "C14": E("(A) invariant at a hook: timeout_decision events checked purely logically (chosen = min, is_global, remaining non-increasing); (B) real-time matrix at the process boundary with an 8x gap (1 s vs 8 s), marker files prove the command was aborted",
+          "Exploration: 200 decision runs + 24 matrix rows (quick).",
+          "Wall clock only separates 1 s from 8 s; Cram attribution of a document timeout not judged per test."),
+ "C15": E("end-to-end + sequential model: result kinds and exit status of `scrut test -r json` on documents with skip codes (default, per document, per test, under --cram-compat) at every position",
+          "Exploration: 400 runs (quick) / 6000 (thorough).",
+          "Includes (prepend/append) excluded; differing skip codes inside one script out of scope."),
+ "C16": E("layering algebra on TestCaseConfig/DocumentConfig vs 'first layer that sets it' (in-process, parser level) + end-to-end behaviour probes (which stream is recorded, CR LF, $VAR, document time limit via hook) under CLI flags, inline config, front-matter defaults, format defaults",
+          "Exploration: 1e5 layerings + 200 e2e runs (quick).",
+          "Environment judged on the first test of a document only (later tests inherit exported state, C12)."),
+ "C17": E("round-trip law: to_yaml_one_liner -> fence line -> MarkdownParser; serde_yaml block form; front-matter; equality of configurations",
+          "Exploration: 5e4 / 3e6 configurations, hostile values.",
+          "U+2028/2029/0085/DEL/C1 in environment values not probed."),
+ "C18": E("end-to-end boundary observation: private TMPDIR tree before/after/2 s after each scrut process for 18 outcome classes x default/keep/work-directory, env and pwd probes from the JSON of failing tests, bursts of 8 concurrent processes; memcheck sidecar (thorough)",
+          "Exploration: 216 runs (quick) / 1440 (thorough).",
+          "Schedules between processes sampled by bursts; tests never modify the documented variables (O-1)."),
+ "C19": E("totality + completeness monitor: outcomes from real validate through all five renderers (in-process) and `scrut test -r pretty|diff|json|yaml` on hostile payloads (e2e): no crash, every unmatched expectation / unexpected line shown, json/yaml well-formed with one entry per outcome",
+          "Exploration: 2e4 outcome lists + 240 e2e runs (quick).",
+          "Canonical expectation form and escaped line taken as data (C08/C11 judge those)."),
+ "C20": E("end-to-end + sequential model: marker log (unique ids appended by the commands), -r json results, exit status, summary line for runs over 1..5 documents with prepend/append, pass/fail/timeout/skip/detach",
+          "Exploration: 300 runs (quick) / 6000 (thorough).",
+          "Order of documents inside a directory argument not judged."),
 }
 ALL = ["C%02d" % i for i in range(1, 21)]
 NA_REASON = {}
